@@ -35,3 +35,21 @@ package keeper
 //@ ensures [enough_iff_bonded_delegations_reach_the_minimum] err == nil ==> (ok <==> exists m in [0, ndelegations(addr) + 1) :: bsum(addr, m) >= minRequired)
 //@ iter 0 invariant [tokens_is_bonded_sum_so_far] tokens == bsum(addr, $k) && iterError == nil
 //@ iter 0 invariant [minimum_not_reached_yet] forall m in [0, $k + 1) :: bsum(addr, m) < minRequired
+
+// ---- reward split inside a reporter (C09, C04) ----
+// decmul/decquo are LegacyDec Mul/Quo on 18-decimal mantissas. reward and credits are mantissas.
+
+//@ define rec(q, r, h) = reporter.Report[pair(q, pair(r, h))]
+//@ define commission_of(reward, r) = decmul(reward, reporter.Reporters[bytes(r)].CommissionRate)
+//@ define share_of(reward, r, q, h, j) = decquo(decmul(reward - commission_of(reward, r), rec(q, r, h).TokenOrigins[j].Amount * 1000000000000000000), rec(q, r, h).Total * 1000000000000000000)
+//@ define own_shares(reward, r, q, h, n) = sum j in [0, n) :: (bytes(rec(q, r, h).TokenOrigins[j].DelegatorAddress) == bytes(r) ? share_of(reward, r, q, h, j) : 0)
+//@ define has_own_origin(r, q, h, n) = exists j in [0, n) :: bytes(rec(q, r, h).TokenOrigins[j].DelegatorAddress) == bytes(r)
+
+//@ func (k Keeper).DivvyingTips(ctx, reporterAddr, reward, queryId, height) (err)
+//@ requires [origins_present] has(reporter.Report, pair(queryId, pair(reporterAddr, height))) ==> forall j in [0, len(rec(queryId, reporterAddr, height).TokenOrigins)) :: rec(queryId, reporterAddr, height).TokenOrigins[j] != nil
+//@ requires [recorded_total_positive] has(reporter.Report, pair(queryId, pair(reporterAddr, height))) ==> rec(queryId, reporterAddr, height).Total > 0
+//@ modifies reporter.SelectorTips
+//@ ensures [commission_credited_to_the_reporter_exactly_once] err == nil ==> get0(reporter.SelectorTips, bytes(reporterAddr)) == get0(old(reporter.SelectorTips), bytes(reporterAddr)) + own_shares(reward, reporterAddr, queryId, height, len(rec(queryId, reporterAddr, height).TokenOrigins)) + (has_own_origin(reporterAddr, queryId, height, len(rec(queryId, reporterAddr, height).TokenOrigins)) ? commission_of(reward, reporterAddr) : 0)
+//@ loop 0 "for _, del := range delAddrs.TokenOrigins"
+//@ loop 0 invariant [reporter_credit_so_far] get0(reporter.SelectorTips, bytes(reporterAddr)) == get0(old(reporter.SelectorTips), bytes(reporterAddr)) + own_shares(reward, reporterAddr, queryId, height, $i) + (has_own_origin(reporterAddr, queryId, height, $i) ? commission_of(reward, reporterAddr) : 0)
+//@ loop 0 invariant [commission_paid_iff_own_origin_seen] commissionPaid <==> has_own_origin(reporterAddr, queryId, height, $i)
